@@ -111,7 +111,7 @@ func (g *gen) ownership(o *opJ) {
 	default:
 		lo := g.r.Intn(g.kgs)
 		o.Lo, o.Hi = lo, lo+1+g.r.Intn(g.kgs-lo)
-		o.Nb = hx.Pick(g.r, []string{"needs", "err", "slow-needs", "slow-err", "live", "live", "slow-live", "live"})
+		o.Nb = hx.Pick(g.r, []string{"needs", "err", "slow-needs", "slow-err", "live", "live", "slow-live", "op", "op"})
 	}
 }
 
@@ -162,6 +162,9 @@ func (g *gen) random(n int) {
 					keep = append(keep, g.ids[len(g.ids)-1]) // else: a late update that does not know the newest checkpoints yet
 				}
 				g.add(opJ{Op: "retain", DB: db, IDs: keep, Fail: g.fault()})
+				if g.r.Chance(1, 4) {
+					g.add(opJ{Op: "retain", DB: db, IDs: []uint64{1000000}}) // names nothing this database holds (refused)
+				}
 			}
 		case x < 86:
 			if len(g.ids) > 0 && g.ndb < 5 {
@@ -402,6 +405,60 @@ func (g *gen) faults() {
 	g.restoreAll(hx.Pick(g.r, ids), g.r.Bool())
 }
 
+// rescale: the old database is compacted (tables in every level, the base level included) before the checkpoint that is then
+// shared by two new databases with disjoint key-group ranges; one takes its own checkpoint and drops the restored one, the
+// other writes until compaction has replaced the shared tables, drops the restored checkpoint too and is collected; variants:
+// the first one's process crashes before (its operator is registered but not deployed), neighbours answer through the real
+// Operator.HandleNeedsTable ("op") or directly ("live").
+func (g *gen) rescale() {
+	for i := 0; i < 1+g.r.Intn(5); i++ {
+		g.writes(0, 2+g.r.Intn(3))
+		g.big(0)
+		g.add(opJ{Op: "drain", DB: 0})
+	}
+	id := g.ckpt(0)
+	g.add(opJ{Op: "drain", DB: 0})
+	g.add(opJ{Op: "crash", DB: 0})
+	nb := hx.Pick(g.r, []string{"op", "op", "live", "slow-op"})
+	split := 1 + g.r.Intn(g.kgs-1)
+	g.add(opJ{Op: "restore", ID: id, Lo: 0, Hi: split, Nb: nb})
+	a := g.ndb
+	g.ndb++
+	g.add(opJ{Op: "restore", ID: id, Lo: split, Hi: g.kgs, Nb: nb})
+	b := g.ndb
+	g.ndb++
+	if g.r.Bool() {
+		a, b = b, a
+	}
+	// a: keeps the shared tables, takes its own checkpoint, drops the restored one
+	if g.r.Bool() {
+		g.writes(a, 1+g.r.Intn(2))
+	}
+	ya := g.ckpt(a)
+	g.add(opJ{Op: "drain", DB: a})
+	g.add(opJ{Op: "retain", DB: a, IDs: []uint64{ya}})
+	switch g.r.Intn(3) {
+	case 0:
+		g.add(opJ{Op: "crash", DB: a}) // its worker restarts: registered, not deployed
+	}
+	// b: compacts the shared tables away
+	for i := 0; i < 2+g.r.Intn(3); i++ {
+		g.writes(b, 2)
+		g.big(b)
+		g.add(opJ{Op: "drain", DB: b})
+	}
+	yb := g.ckpt(b)
+	g.add(opJ{Op: "drain", DB: b})
+	g.add(opJ{Op: "retain", DB: b, IDs: []uint64{yb}})
+	g.add(opJ{Op: "gc"})
+	if g.r.Bool() {
+		g.add(opJ{Op: "drop", DB: b})
+		g.add(opJ{Op: "gc"})
+	}
+	g.add(opJ{Op: "read", DB: a})
+	g.restoreAll(ya, false)
+}
+
 func (g *gen) build(name string, params map[string]any) *hx.Case {
 	c := &hx.Case{Name: name, Params: params}
 	for _, o := range g.ops {
@@ -426,7 +483,7 @@ func (eng) Generate(mode, tier string, r *hx.Rand) []*hx.Case {
 		kind := ""
 		weights := []string{"random", "random", "parked", "parked", "samedir", "chain", "gc", "faults"}
 		if mode == "c09" {
-			weights = []string{"random", "gc", "gc", "gc", "chain", "samedir", "faults", "faults"}
+			weights = []string{"random", "gc", "gc", "chain", "samedir", "faults", "faults", "rescale", "rescale", "rescale"}
 		}
 		switch kind = hx.Pick(g.r, weights); kind {
 		case "random":
@@ -441,6 +498,8 @@ func (eng) Generate(mode, tier string, r *hx.Rand) []*hx.Case {
 			g.gcRegime()
 		case "faults":
 			g.faults()
+		case "rescale":
+			g.rescale()
 		}
 		out = append(out, g.build(fmt.Sprintf("%s-%s-%d", mode, kind, i), params))
 	}
